@@ -83,6 +83,9 @@ func c18m(c *Ctx) {
 			if tmpl == "" {
 				// a message that is computed (passed in, looked up): the constructor helper's
 				// callers are judged where the text is made
+				if _, isPar := msg.(*ssa.Parameter); isPar && (fn.Name() == "NewParseError" || fn.Name() == "NewRangeParseError") {
+					continue // one constructor built on the other: their callers are the sites above
+				}
 				if par, isPar := msg.(*ssa.Parameter); isPar {
 					// the text is made by the callers of this helper: each argument they pass is a
 					// message of the catalogue
@@ -97,6 +100,8 @@ func c18m(c *Ctx) {
 							t2 = s2
 						} else if f2, _, ok2 := flatTemplate(a, 0); ok2 {
 							t2 = f2
+						} else if call2, isCall2 := a.(*ssa.Call); isCall2 && strings.HasSuffix(calleeName(call2), ".Error") {
+							continue // the text of another error handed on (C18.e)
 						} else {
 							t2 = "<computed: " + c.term(cs.Parent(), a) + ">"
 						}
